@@ -93,12 +93,13 @@ def findQueries (H : Hash) (seeds : List (List Nat)) (P : List Nat) : List (List
 /-! ## Seed structs and the derived `seeds()` -/
 
 /-- A field value of a seed struct (the types the harness instantiates: `u8…u128`, `i8…i128`,
-`Pubkey`, `[u8; N]`). `w` is the width in bytes. -/
+`Pubkey`, `[u8; N]`, `bool`). `w` is the width in bytes. -/
 inductive FieldVal
   | uint (w : Nat) (v : Nat)
   | sint (w : Nat) (v : Int)
   | key (bs : List Nat)
   | arr (bs : List Nat)
+  | bool (b : Bool)
   deriving DecidableEq, Repr
 
 /-- `Seed::seed` = `bytemuck::bytes_of`: little-endian integers (two's complement when signed),
@@ -108,17 +109,24 @@ def bytesOf : FieldVal → List Nat
   | .sint w v => leN w (v % ((256 ^ w : Nat) : Int)).toNat
   | .key bs => bs
   | .arr bs => bs
+  | .bool b => [if b then 1 else 0]
+
+/-- One seed component = one struct field. A plain field is a single primitive value; a field whose
+type is itself a padding-free `NoUninit` struct (`#[repr(C)]` / `#[repr(C, packed)]`, also
+`PackedValue<T>`) is the concatenation of its members in declaration order (`bytes_of` of the whole
+struct). A zero-sized field (`[u8; 0]`, a unit struct) is an EMPTY component. -/
+def compBytes (c : List FieldVal) : List Nat := (c.map bytesOf).flatten
 
 /-- A value of a `#[derive(GetSeeds)]` struct: the optional `seed_const` and the fields in
 declaration order. -/
 structure SeedStruct where
   const : Option (List Nat)
-  fields : List FieldVal
+  fields : List (List FieldVal)
   deriving DecidableEq, Repr
 
 /-- The seeds the user means: constant prefix, then every field. -/
 def userSeeds (S : SeedStruct) : List (List Nat) :=
-  S.const.toList ++ S.fields.map bytesOf
+  S.const.toList ++ S.fields.map compBytes
 
 /-- Derived `GetSeeds::seeds()`: the user seeds plus the trailing empty slot. -/
 def seeds (S : SeedStruct) : List (List Nat) :=
@@ -174,6 +182,24 @@ def validateWithBump (H : Hash) (P : List Nat) (S : SeedStruct) (bump : Nat) (st
     | .ok addr =>
       if addr = st.key then (.ok, { st with recorded := some ⟨S, bump⟩ })
       else (.addressMismatch, st)
+
+/-- One validation call on a `Seeded` value (`init_seeds` takes the same two routes). -/
+inductive VStep
+  | seeds (S : SeedStruct)
+  | bump (S : SeedStruct) (b : Nat)
+  deriving DecidableEq, Repr
+
+def applyStep (H : Hash) (P : List Nat) : VStep → Seeded → VRes × Seeded
+  | .seeds S, st => validateSeeds H P S st
+  | .bump S b, st => validateWithBump H P S b st
+
+/-- A history of validation calls on ONE `Seeded` value: the results in order and the final state. -/
+def runHistory (H : Hash) (P : List Nat) : List VStep → Seeded → List VRes × Seeded
+  | [], st => ([], st)
+  | s :: rest, st =>
+    let (r, st1) := applyStep H P s st
+    let (rs, st2) := runHistory H P rest st1
+    (r :: rs, st2)
 
 /-- `access_seeds()` (`none` = the `expect("Seeds not set!")` panic). -/
 def accessSeeds (st : Seeded) : Option Recorded := st.recorded
